@@ -87,6 +87,28 @@ DerivOfValue(s, K, i, deg) ==
                 <<Term(-2, s, 0, x), Term(9, s, 0, x + d), Term(-18, s, 0, x + 2 * d),
                   Term(11, s, 0, x + 3 * d), Term(-6 * d, s, 1, x + 3 * d)>>) >>
 
+(* The same identities in the two EXTRAPOLATION regions.  Whatever continuation a spline type implements
+   outside [x_1, x_N] (the code continues the outermost polynomial), Calculate and CalculateDerivative
+   must describe the same function there.  Below the grid the points x_1 - 4d .. x_1 - d (d = quarter of
+   the first interval), above it x_N + d .. x_N + 4d (d = quarter of the last interval); the 4-point
+   formulas are exact for every polynomial continuation of degree <= 3 (so also for a linear one).      *)
+DerivOfValueAt(c, s, x, d, deg) ==
+  IF deg = 1
+  THEN << Relation(c, s, <<Term(-1, s, 0, x), Term(1, s, 0, x + d), Term(-d, s, 1, x)>>),
+          Relation(c, s, <<Term(-1, s, 0, x + 2 * d), Term(1, s, 0, x + 3 * d), Term(-d, s, 1, x + 3 * d)>>) >>
+  ELSE << Relation(c, s, <<Term(-11, s, 0, x), Term(18, s, 0, x + d), Term(-9, s, 0, x + 2 * d),
+                           Term(2, s, 0, x + 3 * d), Term(-6 * d, s, 1, x)>>),
+          Relation(c, s, <<Term(-2, s, 0, x), Term(9, s, 0, x + d), Term(-18, s, 0, x + 2 * d),
+                           Term(11, s, 0, x + 3 * d), Term(-6 * d, s, 1, x + 3 * d)>>),
+          \* and the two inner points through the derivative's own 4-point (exact for quadratics) formula:
+          \* q(x+d) and q(x+2d) from the cubic values: f'(x+d) = (-2 f0 - 3 f1 + 6 f2 - f3)/(6d)
+          Relation(c, s, <<Term(-2, s, 0, x), Term(-3, s, 0, x + d), Term(6, s, 0, x + 2 * d),
+                           Term(-1, s, 0, x + 3 * d), Term(-6 * d, s, 1, x + d)>>) >>
+ExtrapRelations(s, K, deg) ==
+  LET N == Len(K)  d0 == Quarter(K, 0)  d1 == Quarter(K, N - 2) IN
+  DerivOfValueAt("derivative-of-value:below", s, K[1] - 4 * d0, d0, deg)
+  \o DerivOfValueAt("derivative-of-value:above", s, K[N] + d1, d1, deg)
+
 \* all single-instance relations of an interpolating spline of piece degree deg
 \* (smooth = TRUE: also the first derivative is continuous: cubic, Akima)
 PieceRelations(s, K, deg, smooth) ==
